@@ -570,6 +570,35 @@ def T1(ctx, rule="T1", kinds=None):
             ctx.unverifiable(rule, "floor-family|%s" % f, "-", "no public entry point of family %s discovered" % f)
 
 
+def U3(ctx, rule="U3"):
+    """a hand-written poll function never manufactures `Poll::Pending`: every Pending it returns is what a receiver's poll
+    returned in this very call (directly, or through `ready!`, i.e. under the `Pending` arm of that poll's result). A Pending
+    answered from remembered state ("the queue was empty last time") registers no waker for what it did not poll, and tokio's
+    cooperative budget makes `poll_recv` report Pending on a non-empty channel."""
+    m, fb, fl = ctx.model, ctx.fb, ctx.model.flow
+    n = 0
+    for cb, how in poll_closures(ctx):
+        for bb, si, s_ in cb.stmts():
+            if s_["k"] != "assign" or s_["rv"]["k"] != "agg" or s_["rv"].get("def") != "std::task::Poll" or s_["rv"].get("variant") != "Pending":
+                continue
+            n += 1
+            under_poll = False
+            for sb, vals in guards_of(cb, bb):
+                de = switch_expr(cb, sb)
+                if de.kind == "discr" and vals == frozenset(["1"]):
+                    inner = strip_refs(de[1])
+                    if any(c.kind == "call" and c[1] in ("tokio::sync::mpsc::Receiver::<T>::poll_recv", "tokio::sync::mpsc::UnboundedReceiver::<T>::poll_recv",
+                                                          "futures::Stream::poll_next", "futures::StreamExt::poll_next_unpin", "futures::Future::poll")
+                           for c in walk_expr(inner)):
+                        under_poll = True
+            ctx.check(under_poll, rule, "pending-from-poll|%s" % short(cb.id), m.where(cb, bb, si),
+                      "this Pending is the Pending arm of a poll made in the same call",
+                      "the poll function returns a `Poll::Pending` it made up (not the result of a poll in this call): nothing guarantees a "
+                      "wake-up for the sources it skipped, so the stream can stay pending while functions are ready")
+    if n == 0:
+        ctx.ok(rule, "no-made-up-pending", "-", "no hand-written poll function constructs Poll::Pending (%d poll functions)" % len(poll_closures(ctx)))
+
+
 def P2(ctx, rule="P2"):
     """no `unwrap`/`expect` on the holder of a protocol sender: `Option<Sender>` is legitimately `None` after the run was
     interrupted, after a function failed and once everything was counted off, while functions started earlier are still
